@@ -233,6 +233,7 @@ def previous_config_context(cfg):
 
 
 print_config_skip: ContextVar = ContextVar("print_config_skip", default=False)
+subcommand_parsers_in_progress: ContextVar = ContextVar("subcommand_parsers_in_progress", default=())
 
 
 class _ActionPrintConfig(Action):
@@ -265,7 +266,7 @@ class _ActionPrintConfig(Action):
                 raise argument_error(f'Invalid option "{invalid_flags[0]}" for {option_string}')
             for flag in [f for f in flags if f != ""]:
                 kwargs[valid_flags[flag]] = True
-        while hasattr(parser, "parent_parser"):
+        while hasattr(parser, "parent_parser") and parser in subcommand_parsers_in_progress.get():
             kwargs["key"] = parser.subcommand if kwargs["key"] is None else parser.subcommand + "." + kwargs["key"]
             parser = parser.parent_parser
         parser.print_config = kwargs
@@ -674,7 +675,11 @@ class _ActionSubCommands(_SubParsersAction):
             subparser = self._name_parser_map[subcommand]
             subnamespace = namespace.get(subcommand).clone() if subcommand in namespace else None
             kwargs = dict(_skip_validation=True, **parse_kwargs.get())
-            namespace[subcommand] = subparser.parse_args(arg_strings, namespace=subnamespace, **kwargs)
+            token = subcommand_parsers_in_progress.set(subcommand_parsers_in_progress.get() + (subparser,))
+            try:
+                namespace[subcommand] = subparser.parse_args(arg_strings, namespace=subnamespace, **kwargs)
+            finally:
+                subcommand_parsers_in_progress.reset(token)
 
     @staticmethod
     @contextmanager
